@@ -810,7 +810,12 @@ func (p *MinQueriesPlanner) generateScrubFields(plans QueryPlanList) error {
 			}
 
 			for field, values := range childScrubs {
-				fieldsToScrub[field] = append(fieldsToScrub[field], values...)
+				for _, value := range values {
+					// several steps can hang off the same insertion point: scrub it once
+					if !containsPath(fieldsToScrub[field], value) {
+						fieldsToScrub[field] = append(fieldsToScrub[field], value)
+					}
+				}
 			}
 		}
 
@@ -818,6 +823,25 @@ func (p *MinQueriesPlanner) generateScrubFields(plans QueryPlanList) error {
 	}
 
 	return nil
+}
+
+func containsPath(paths [][]string, path []string) bool {
+	for _, candidate := range paths {
+		if len(candidate) != len(path) {
+			continue
+		}
+		same := true
+		for i := range candidate {
+			if candidate[i] != path[i] {
+				same = false
+				break
+			}
+		}
+		if same {
+			return true
+		}
+	}
+	return false
 }
 
 func (p *MinQueriesPlanner) generateScrubFieldsWalk(step *QueryPlanStep, selection ast.SelectionSet) (map[string][][]string, error) {
